@@ -443,7 +443,8 @@ Qed.
 Theorem C04_pli_expressions : forall L C rows cap dr i, 0 < C ->
   si_rows L C default_extra_rows = seq_rows C L /\ si_rows_ok L C default_extra_rows = true /\
   st_rows L C default_extra_rows = seq_rows C L /\
-  si_capacity L C default_extra_rows rows = rows + 32 /\ st_capacity L C default_extra_rows rows = rows + 32 /\
+  si_capacity L C default_extra_rows rows = rows + default_extra_rows /\
+  st_capacity L C default_extra_rows rows = rows + default_extra_rows /\
   si_reserve L C default_extra_rows rows cap = cap /\ si_resize L C default_extra_rows rows cap = rows /\
   st_mrows L C default_extra_rows rows cap = rows /\ st_mcap L C default_extra_rows rows cap = cap /\
   (si_w_row L C default_extra_rows rows cap dr i = i mod rows /\ si_w_col L C default_extra_rows rows cap dr i = i / rows) /\
@@ -452,10 +453,11 @@ Theorem C04_pli_expressions : forall L C rows cap dr i, 0 < C ->
   si_newlen L C default_extra_rows rows cap = L /\ st_newlen L C default_extra_rows rows cap = L.
 Proof.
   intros L C rows cap dr i HC.
-  split; [reflexivity|]. split; [unfold si_rows_ok; apply Nat.leb_le; lia|].
-  split; [exact (rows_fresh_eq C L HC)|].
-  split; [unfold si_capacity; rewrite default_extra_rows_value; lia|].
-  split; [unfold st_capacity; rewrite default_extra_rows_value; lia|].
+  split; [unfold si_rows, seq_rows; first [reflexivity | repeat f_equal; lia]|].
+  split; [unfold si_rows_ok; repeat (apply andb_true_iff; split); try reflexivity; apply Nat.leb_le; lia|].
+  split; [first [exact (rows_fresh_eq C L HC) | rewrite <- (rows_fresh_eq C L HC); unfold st_rows; repeat f_equal; lia]|].
+  split; [unfold si_capacity; lia|].
+  split; [unfold st_capacity; lia|].
   repeat split; reflexivity.
 Qed.
 
